@@ -1,5 +1,6 @@
 """C06 - dry run predicts the real run and its explanations are true."""
 import concurrent.futures as cf
+import os
 import random
 import re
 import vlib
@@ -7,13 +8,45 @@ import proc
 import worldscen as ws
 import gen_rules
 import evalcommon as ec
+import mbtext
 
 
-def widthC(b):
-    return sum(1 for c in b if c >= 128 or 32 <= c <= 126)
+
+def judge_sub(val, b, en, quoted, marker, plen, locale):
+    """One explanation (quoted line + marker line) of the sub-match [b, en) of a pattern applied to `val`; `plen` bytes of the
+    quoted line are its head (`conf:lno: key: ` or the blanks standing for it).  Returns (problems, known class or None)."""
+    # the line of the value that contains the first matched byte
+    ls = val.rfind(b'\n', 0, b) + 1 if val[b:b + 1] != b'\n' else b + 1
+    le = val.find(b'\n', ls)
+    le = len(val) if le < 0 else le
+    vline = val[ls:le]
+    stripped = vline.lstrip(b' \t')
+    lead = len(vline) - len(stripped)
+    shown = quoted[plen:]
+    if shown != stripped:
+        if val[b:b + 1] == b'\n':
+            return [], 'marker-match-at-newline'
+        return ['quoted text %r is not the line of the value %r' % (shown[:60], stripped[:60])], None
+    if b < ls + lead:
+        return [], 'marker-leading-blank'        # match begins inside the skipped leading blanks
+    head, before, matched = quoted[:plen], val[ls + lead:b], val[b:min(en, le)]
+    if not mbtext.oracle_defined(head + before + matched + val[min(en, le):min(en, le) + 1], locale):
+        return [], 'no-verdict'
+    if locale != 'C':
+        # offsets inside a character (never produced by regexec on well-formed text) have no column of their own
+        bd = set(mbtext.boundaries(val, locale))
+        if b not in bd or min(en, le) not in bd:
+            return [], 'no-verdict'
+    # independent column oracle (tools/mbtext.py): display widths from a table of characters, not from the C library
+    probs = mbtext.judge_markers(head, before, matched, marker, locale, open_end=en > le)
+    if probs and any(c >= 128 for c in head) and locale != 'C':
+        # the behaviour repaired by 951a0f1: the head counted in bytes instead of columns, everything else right
+        if not mbtext.judge_markers(b' ' * len(head), before, matched, marker, locale, open_end=en > le):
+            probs = [probs[0] + ' - the head %r is accounted for in bytes, not in columns' % head[:60]]
+    return ['%s (line %r)' % (x, shown[:50]) for x in probs], None
 
 
-def check_explanations(c):
+def check_explanations(c, locale='C'):
     """Judge the dry-run text of one evaluated case against the implementation's own match list.
     Returns (problems, known_class or None, n_markers)."""
     e = c.impl.split(' ')
@@ -59,13 +92,6 @@ def check_explanations(c):
                 quoted, marker = lines[pos], lines[pos + 1]
                 pos += 2
                 nmark += 1
-                # the line of the value that contains the first matched byte
-                ls = val.rfind(b'\n', 0, b) + 1 if val[b:b + 1] != b'\n' else b + 1
-                le = val.find(b'\n', ls)
-                le = len(val) if le < 0 else le
-                vline = val[ls:le]
-                stripped = vline.lstrip(b' \t')
-                lead = len(vline) - len(stripped)
                 if first:
                     m = re.match(rb'^(.*?:\d+: )' + re.escape(key) + rb': ', quoted)
                     if not m or not re.match(rb'^~?/conf:\d+: $', m.group(1)):
@@ -76,34 +102,260 @@ def check_explanations(c):
                     if str(lno) != pf[1]:
                         probs.append('explanation names line %d, the condition is on line %s' % (lno, pf[1]))
                     plen = len(m.group(0))
-                    pind = plen
+                    pind = mbtext.display_width(m.group(0), locale)
                 else:
                     plen = pind
                     if quoted[:plen].strip() != b'':
                         probs.append('continuation explanation is not indented')
                 first = False
-                shown = quoted[plen:]
-                if shown != stripped:
-                    if val[b:b + 1] == b'\n':
-                        known = known or 'marker-match-at-newline'
-                    else:
-                        probs.append('quoted text %r is not the line of the value %r' % (shown[:60], stripped[:60]))
+                p2, k2 = judge_sub(val, b, en, quoted, marker, plen, locale)
+                if k2 == 'no-verdict':
+                    nmark -= 1
                     continue
-                caret = marker.find(b'^')
-                dollar = marker.find(b'$')
-                if b < ls + lead:
-                    known = known or 'marker-leading-blank'    # match begins inside the skipped leading blanks
-                    continue
-                want_caret = plen + widthC(val[ls + lead:b])
-                w = widthC(val[b:en])
-                want_dollar = want_caret + (w - 1 if w >= 2 else 1)
-                if en > le:
-                    # the match continues on the next line: the end marker cannot be under its last character
-                    want_dollar = dollar
-                if caret != want_caret or dollar != want_dollar or marker.strip(b' ') != b'^' + b' ' * (dollar - caret - 1) + b'$':
-                    probs.append('markers at columns %d/%d, first/last matched character at %d/%d (line %r)' % (caret, dollar, want_caret, want_dollar, shown[:50]))
+                probs += p2
+                known = known or k2
         pending = []
     return probs, known, nmark
+
+
+# --------------------------------------------------------------------------
+# expr_inspect directly: generated (value, sub-match offsets) in both locales
+# --------------------------------------------------------------------------
+
+KEYS = [b'Subject', b'To', b'X-Long-Header-Name', b'Body', b'Date', b'a']
+CONFS = [(b'/h', b'/h/conf'), (b'/home/user', b'/home/user/.mdsort.conf'), (b'/h', b'/etc/mdsort.conf'), (b'/h', b'rel/conf'), (b'', b'/c')]
+# a configuration path / header name with characters of several bytes, of two columns, of no column (the head of an explanation
+# must be accounted for in columns: repaired in mdsort by 951a0f1)
+CONFS_MB = [(b'/h', '/h/d\u00e9/conf'.encode()), (b'/h', '/etc/\u4e2d/m.conf'.encode()), ('/h\u00e9'.encode(), '/h\u00e9/c\u0301onf'.encode()),
+            (b'/home/user', '/home/user/\u6587\u4ef6/\u00fc.conf'.encode()), (b'/x', '/h/\U0001f600.conf'.encode()), (b'/h', '/h/caf\u00e9'.encode())]
+KEYS_MB = ['S\u00e9'.encode(), 'X-\u4e2d'.encode(), '\u0416'.encode(), 'X-e\u0301'.encode()]
+
+
+class InspectCase:
+    __slots__ = ('home', 'conf', 'key', 'val', 'lno', 'subs', 'aligned', 'impl', 'model')
+
+    def request(self):
+        subs = '+'.join('x/x' if x is None else '%d/%d' % x for x in self.subs)
+        return 'inspect ' + ' '.join(vlib.hexs(a) for a in (self.home, self.conf, self.key, self.val, str(self.lno).encode(), subs.encode()))
+
+    def prefix(self):
+        c = self.conf
+        if c.startswith(self.home):
+            c = b'~' + c[len(self.home):]
+        return c + b':%d: ' % self.lno + self.key + b': '
+
+    def readable(self):
+        return {'home': repr(self.home), 'configuration_path': repr(self.conf), 'header': repr(self.key), 'value': repr(self.val),
+                'line': self.lno, 'sub_matches': self.subs, 'request': self.request()}
+
+
+def inspect_case(rng):
+    c = InspectCase()
+    c.home, c.conf = rng.choice(CONFS)
+    c.key = rng.choice(KEYS)
+    r = rng.random()
+    if r < 0.12:
+        c.home, c.conf = rng.choice(CONFS_MB)
+    if 0.08 < r < 0.20:
+        c.key = rng.choice(KEYS_MB)
+    c.lno = rng.choice([1, 2, 7, 10, 42, 100, 1234])
+    c.impl = c.model = None
+    # the value: 1-3 lines, each optional leading blanks + pieces (mostly single characters, see mbtext.atom)
+    lines, offs, pos = [], [], 0      # offs[k] = piece boundaries of line k (absolute), first one after the leading blanks
+    for k in range(rng.choice([1, 1, 2, 3])):
+        lead = rng.choice([b'', b'', b'', b' ', b'   ', b'\t', b' \t '])
+        pieces = mbtext.atoms_line(rng, rng.randint(1, 9), control=True)
+        if pieces[0][:1] in (b' ', b'\t'):
+            pieces[0] = b'w'
+        o, q = [], pos + len(lead)
+        for pc in pieces:
+            o.append(q)
+            q += len(pc)
+        o.append(q)
+        offs.append((pos, o))
+        lines.append(lead + b''.join(pieces))
+        pos = q + 1
+    c.val = b'\n'.join(lines)
+
+    def span(k=None):
+        k = rng.randrange(len(lines)) if k is None else k
+        o = offs[k][1]
+        i = rng.randrange(len(o) - 1)
+        j = rng.randrange(i + 1, len(o))
+        return k, o[i], o[j]
+    k, b, e = span()
+    c.aligned = True
+    r = rng.random()
+    if r < 0.06 and k + 1 < len(lines):
+        e = rng.choice(offs[k + 1][1][1:])                        # the match continues on the next line
+    elif r < 0.10 and offs[k][1][0] > offs[k][0]:
+        b = rng.randrange(offs[k][0], offs[k][1][0])              # begins inside the leading blanks (F15)
+    elif r < 0.12 and k + 1 < len(lines):
+        b = offs[k][1][-1]                                       # begins at the newline (F15b)
+        e = max(e, b + 1)
+    elif r < 0.16:
+        b = rng.randrange(len(c.val))                            # any two offsets, also inside a character
+        e = rng.randrange(b + 1, len(c.val) + 1)
+        c.aligned = False
+    c.subs = [(b, e)]
+    if rng.random() < 0.25:
+        for _ in range(rng.choice([1, 2, 3])):
+            t = rng.random()
+            if t < 0.2:
+                c.subs.append(None)
+            elif t < 0.35:
+                c.subs.append((b, b))
+            else:
+                k2, b2, e2 = span(k if t < 0.8 else None)
+                c.subs.append((b2, e2))
+    return c
+
+
+def judge_inspect(c, locale):
+    """(problems, known class, number of marker lines judged) for the text the real expr_inspect printed."""
+    if c.impl is None or not re.match(r'^([0-9a-f]{2})*$|^-$', c.impl):
+        return ['no answer: %r' % (c.impl or '')[:80]], None, 0
+    lines = vlib.unhex(c.impl).split(b'\n')
+    if lines and lines[-1] == b'':
+        lines = lines[:-1]
+    printed = [x for x in c.subs if x is not None and x[0] != x[1]]
+    if len(lines) != 2 * len(printed):
+        return ['%d lines printed for %d non-empty sub-matches' % (len(lines), len(printed))], None, 0
+    probs, known, n = [], None, 0
+    pre = c.prefix()
+    for i, (b, e) in enumerate(printed):
+        quoted, marker = lines[2 * i], lines[2 * i + 1]
+        head = pre if i == 0 else b' ' * mbtext.display_width(pre, locale)      # later explanations: as many blanks as the head has columns
+        if quoted[:len(head)] != head:
+            probs.append('explanation %d does not begin with %r: %r' % (i, head[:40], quoted[:60]))
+            continue
+        p2, k2 = judge_sub(c.val, b, e, quoted, marker, len(head), locale)
+        if k2 == 'no-verdict':
+            continue
+        probs += p2
+        known = known or k2
+        n += 1
+    return probs, known, n
+
+
+def inspect_stage(rep, h, env, rng, n):
+    """The real expr_inspect on generated values under LC_ALL=C and LC_ALL=C.utf8: the Lean model (widths from the platform's
+    mbtowc/wcwidth through the FFI, same locale) must print the same bytes; the column oracle judges the implementation's text."""
+    stats = {'cases': 0, 'marker_lines_judged': 0, 'correspondence_mismatches': 0, 'per_locale': {}}
+    mism = []
+    for locale in mbtext.LOCALES:
+        lenv = dict(env, LC_ALL=locale)
+        denv = dict(os.environ, LC_ALL=locale)
+        info = vlib.run_batch([vlib.driver_path()], ['M locale 00'], denv)[0]
+        if info != ('1 1' if locale == 'C' else '1 6'):
+            raise vlib.CheckError('the driver does not run in locale %s (setlocale/MB_CUR_MAX: %r)' % (locale, info))
+        cases = [inspect_case(rng) for _ in range(n)]
+        reqs = [c.request() for c in cases]
+        impl = vlib.run_batch([h], reqs, lenv)
+        model = vlib.run_batch([vlib.driver_path()], ['M ' + r for r in reqs], denv)
+        nj = nbad = 0
+        for c, i, m in zip(cases, impl, model):
+            c.impl, c.model = i, m
+            if i.startswith('FAULT'):
+                rep.finding('sanitizer-fault', dict(c.readable(), locale=locale, implementation=i))
+                continue
+            if i != m:
+                mism.append((locale, c))
+            probs, known, k = judge_inspect(c, locale)
+            nj += k
+            if probs and known is None:
+                nbad += 1
+                if nbad <= 5:
+                    rep.finding('unlisted', dict(c.readable(), locale='LC_ALL=' + locale, what=probs[:4],
+                                                 printed=vlib.unhex(i).decode('utf-8', 'replace') if not i.startswith('B') else i))
+            elif known:
+                rep.finding(known, dict(c.readable(), locale='LC_ALL=' + locale, what=probs[:2], printed=vlib.unhex(i).decode('utf-8', 'replace')))
+        stats['cases'] += len(cases)
+        stats['marker_lines_judged'] += nj
+        stats['per_locale'][locale] = {'cases': len(cases), 'marker_lines_judged': nj, 'rejected_by_column_oracle': nbad,
+                                       'non_ascii_path_or_header_name': sum(1 for c in cases if any(x >= 128 for x in c.prefix()))}
+    stats['correspondence_mismatches'] = len(mism)
+    if mism and not rep.violations:
+        rep.violation({'obligation': 'correspondence expr_inspect/strnwidth <-> Model/Inspect.lean (exprInspect, strnwidth over the platform mbtowc/wcwidth)',
+                       'disagreements': len(mism),
+                       'examples': [dict(c.readable(), locale='LC_ALL=' + l, implementation=c.impl[-600:], model=(c.model or '')[-600:]) for l, c in mism[:5]]}, False)
+    return stats
+
+
+def locale_proc_stage(rep, tools, rng):
+    """The real binary with -d and for real under LC_ALL=C and LC_ALL=C.utf8 on header and body rules whose patterns are sensitive to
+    multibyte handling (tools/localeproc.py): (i) the messages -d lists are the messages the real run moves, in the same locale;
+    (ii) -d lists a message iff the platform's regexec under that locale matches the decoded value; (iii) every marker line -d
+    prints is judged by the column oracle against the offsets regexec gives (Lean driver, same LC_ALL)."""
+    import localeproc as lp
+    fams = lp.families(rng, rep.tier)
+    with cf.ThreadPoolExecutor(min(8, vlib.NCPU)) as ex:
+        list(ex.map(lambda f: lp.run_family(tools, f), fams))
+    refs = {l: lp.reference(fams, l) for l in mbtext.LOCALES}
+    st = {'configurations': len(fams), 'messages_each': len(fams[0].msgs) if fams else 0, 'decisions_compared': 0, 'listed': 0,
+          'marker_lines_judged': 0, 'disagreements': 0}
+    bad = []
+    for fi, f in enumerate(fams):
+        key = f.hname if f.kind == 'header' else b'Body'
+        for l in mbtext.LOCALES:
+            res = f.result[l]
+            if res['status'] != (0, 0):
+                if any(refs[l].get((fi, k)) is not None for k, _ in f.msgs):
+                    bad.append((f, l, b'', ['mdsort exits %r (-d) / %r (real run): %s' % (res['status'] + (res['stderr'],))], None))
+                else:
+                    st.setdefault('rejected_patterns', []).append('%s under LC_ALL=%s: regcomp and mdsort both reject it' % (f.readable()['rule'], l))
+                continue
+            head = res['conf'] + b':2: ' + key + b': '
+            for k, m in f.msgs:
+                ref = refs[l].get((fi, k))
+                if ref is None:
+                    st['no_reference_verdict'] = st.get('no_reference_verdict', 0) + 1
+                    continue
+                listed, moved = k in res['dry'], k in res['moved']
+                st['decisions_compared'] += 1
+                what, known = [], None
+                if listed != moved:
+                    what.append('-d %s the message, the real run %s it (same locale)' % ('lists' if listed else 'does not list', 'moves' if moved else 'does not move'))
+                if listed != ref[0]:
+                    what.append('-d %s the message; regexec under LC_ALL=%s on the decoded value says %s' % ('lists' if listed else 'does not list', l, 'match' if ref[0] else 'no match'))
+                if listed and ref[0]:
+                    st['listed'] += 1
+                    e = res['dry'][k]
+                    if e['dest'] != ['%s/dst/new' % res['root']]:
+                        what.append('destination lines %r' % e['dest'])
+                    printed = [g for g in ref[2] if g is not None and g[0] != g[1]]
+                    if len(e['expl']) != len(printed):
+                        what.append('%d explanations printed for %d non-empty sub-matches' % (len(e['expl']), len(printed)))
+                    else:
+                        for i, ((b, en), (quoted, marker)) in enumerate(zip(printed, e['expl'])):
+                            hd = head if i == 0 else b' ' * mbtext.display_width(head, l)
+                            if quoted[:len(hd)] != hd:
+                                what.append('explanation does not begin with %r: %r' % (hd[-30:], quoted[:80]))
+                                continue
+                            p2, k2 = judge_sub(ref[1], b, en, quoted, marker, len(hd), l)
+                            if k2 == 'no-verdict':
+                                continue
+                            st['marker_lines_judged'] += 1
+                            if any(x >= 128 for x in head):
+                                st['marker_lines_with_non_ascii_head'] = st.get('marker_lines_with_non_ascii_head', 0) + 1
+                            what += p2
+                            known = known or k2
+                if what or known:
+                    bad.append((f, l, m, what, known, res['dry'].get(k)))
+    st['disagreements'] = sum(1 for x in bad if x[3])
+    nrep = 0
+    for x in sorted(bad, key=lambda x: len(x[2])):
+        f, l, m, what, known = x[:5]
+        payload = dict(f.readable(), locale='LC_ALL=' + l, message=repr(m), what=what[:4], stage='locale (real binary)',
+                       printed=b'\n'.join(q + b'\n' + mk for q, mk in (x[5] or {}).get('expl', [])).decode('utf-8', 'replace') if len(x) > 5 else '',
+                       reproduce='LC_ALL=%s mdsort -d -f conf with: maildir "src" { %s }' % (l, f.readable()['rule']))
+        if what and not known:
+            nrep += 1
+            if nrep <= 6:
+                rep.finding('unlisted', payload)
+        elif known:
+            rep.finding(known, payload)
+    return st
 
 
 def dry_vs_real(tools, spec):
@@ -167,18 +419,45 @@ def dry_vs_real(tools, spec):
         scen.cleanup()
 
 
+def decorate(rng, msg):
+    """Multibyte text (wide, zero-width, 2-4 byte characters, stray 8-bit bytes) in front of and behind what the generated patterns
+    match: raw in To/Cc/Subject values and body lines, as an RFC 2047 word in some Subject values."""
+    head, sep, body = msg.partition(b'\n\n')
+    hl = head.split(b'\n')
+    for i, l in enumerate(hl):
+        m = re.match(rb'^(To|Cc|Subject): (.+)$', l)
+        if not m or l.startswith(b'Subject: =?') or rng.random() < 0.3:
+            continue
+        pre = mbtext.text(rng, 1, 4, invalid=rng.random() < 0.3)
+        post = mbtext.text(rng, 0, 3, invalid=False) if rng.random() < 0.5 else b''
+        if m.group(1) == b'Subject' and rng.random() < 0.3:
+            import base64
+            w = mbtext.text(rng, 1, 4, invalid=False)
+            pre = rng.choice([b'=?utf-8?B?' + base64.b64encode(w) + b'?=', b'=?UTF-8?q?' + b''.join(b'=%02X' % c for c in w) + b'?='])
+        hl[i] = m.group(1) + b': ' + pre + b' ' + m.group(2) + post
+    if b'Content-Type: multipart' not in head and b'Content-Transfer-Encoding' not in head:
+        bl = body.split(b'\n')
+        for i, l in enumerate(bl):
+            if l and not re.match(rb'^line[0-9]$', l) and rng.random() < 0.7:
+                bl[i] = mbtext.text(rng, 1, 3, invalid=rng.random() < 0.3) + b' ' + l + (mbtext.text(rng, 1, 2, invalid=False) if rng.random() < 0.4 else b'')
+        body = b'\n'.join(bl)
+    return b'\n'.join(hl) + sep + body
+
+
 def run(rep):
     rng = random.Random(rep.seed)
     sc = vlib.Scratch()
     h, env = ec.harness(sc)
-    env = dict(env, LC_ALL='C')
+    envs = {l: (dict(env, LC_ALL=l), dict(os.environ, LC_ALL=l)) for l in mbtext.LOCALES}    # locale -> (harness, driver) environment
+    env = envs['C'][0]
     tools = proc.Tools(sc)
     vlib.lean_gate(rep, 'C06', sc, [
-        'display width: the model uses the C-locale width (every printable ASCII byte and every byte >= 0x80 has width 1); UTF-8 locales are '
-        'not exercised by this check',
+        'display width: the model transcribes strnwidth() over mbtowc/wcwidth; the platform\'s mbtowc, wcwidth and regexec (FFI, LC_ALL=C and '
+        'LC_ALL=C.utf8, the only UTF-8 locale of this image) are on both sides of the comparison; the column oracle of the check has its own '
+        'table of character widths (tools/mbtext.py) and abstains on byte sequences whose rendering depends on the decoder',
     ])
     n = 1200 if rep.tier == 'quick' else 40000
-    cases = []
+    cases, mb = [], []
     for _ in range(n):
         g = gen_rules.Gen(rng, depth=rng.choice([0, 1, 2]), rules_max=3, errors=False)
         conf = g.config()
@@ -188,14 +467,23 @@ def run(rep):
         msg = gen_rules.message(rng, truth, mime=rng.random() < 0.2, date=date)
         if rng.random() < 0.5:
             msg = msg.replace(b'\n\n', b'\nSubject: hx folded\n\tsecond =?utf-8?Q?h=C3=A9?= line\n   third\n\n', 1) if rng.random() < 0.5 else msg.replace(b'bird\n', b'  bird x\n\tline1 bird\n')
+        if rng.random() < 0.35:
+            msg = decorate(rng, msg)
+            mb.append(len(cases))
         cases.append(ec.Case(conf, pats, msg, rng.choice(['new', 'cur']), rng.choice(['1.host', '2.host:2,S']), '1'))
     for dry in ('0', '1'):
         cases.append(ec.Case('maildir "~/md" {\n\tmatch date > 2 weeks and header "To" /(u[a-z]*)@/ move "~/dst/\\1" label "\\0"\n}\n', [('(u[a-z]*)@', '')],
                              b'To: user@example.com\nDate: Mon, 21 Sep 2020 14:13:20 +0100\n\nb\n', 'new', '1.host', dry))
-    ec.run_cases(h, env, cases, want_spec=False)
+    ec.run_cases(h, env, cases, want_spec=False, denv=envs['C'][1])
+    # the cases with multibyte text once more under LC_ALL=C.utf8 (regexec counts characters, strnwidth columns)
+    cases_u = [ec.Case(cases[i].conf, cases[i].pats, cases[i].msg, cases[i].sub, cases[i].name, '1') for i in mb]
+    ec.run_cases(h, envs['C.utf8'][0], cases_u, want_spec=False, denv=envs['C.utf8'][1])
+    for c in cases_u:
+        c.locale = 'C.utf8'
     corr_bad = []
     nmark = 0
-    for c in cases:
+    for c in cases + cases_u:
+        locale = c.locale or 'C'
         if c.note == 'fault':
             rep.finding('sanitizer-fault', dict(c.readable(), implementation=c.impl))
             continue
@@ -204,12 +492,16 @@ def run(rep):
         if (c.impl if c.dry == '1' else ec.impl_core(c)) != c.model:
             corr_bad.append(c)
         if c.impl.startswith('MATCH'):
-            probs, known, k = check_explanations(c)
+            probs, known, k = check_explanations(c, locale)
             nmark += k
             if probs:
-                rep.finding('unlisted', dict(c.readable(), what=probs[:4], dry_run_output=ec.impl_dry_text(c).decode('latin-1')[:1500]))
+                rep.finding('unlisted', dict(c.readable(), what=probs[:4],
+                                             dry_run_output=ec.impl_dry_text(c).decode('utf-8', 'replace')[:1500]))
             elif known:
-                rep.finding(known, dict(c.readable(), dry_run_output=ec.impl_dry_text(c).decode('latin-1')[:800]))
+                rep.finding(known, dict(c.readable(), dry_run_output=ec.impl_dry_text(c).decode('utf-8', 'replace')[:800]))
+    # expr_inspect directly, both locales
+    ist = inspect_stage(rep, h, envs['C'][0], rng, 3000 if rep.tier == 'quick' else 60000)
+    lst = locale_proc_stage(rep, tools, rng)
     # process level: dry run vs real run from the same state
     specs = list(ws.corpus())
     t = ws.base_tree(0, 0, extra_dirs=('dst', 'dst/user1', 'dst/user2'))
@@ -228,17 +520,31 @@ def run(rep):
         rep.violation({'obligation': 'correspondence matches_inspect/expr_inspect <-> Model/Inspect.lean (dry-run text)', 'disagreements': len(corr_bad),
                        'examples': [dict(c.readable(), implementation=c.impl[-900:], model=(c.model or '')[-900:]) for c in corr_bad[:4]]}, False)
     vlib.lean_conclude(rep)
+    rep.assumptions += ['locales C and C.utf8 (no other locale is installed in this image)',
+                        'display width of a control character (TAB, ESC, C1) = 0 columns, as wcwidth() and strnwidth() have it; of a byte that is no '
+                        'UTF-8 = 1 column; no verdict of the column oracle on sequences whose rendering depends on the decoder (truncated, '
+                        'overlong, surrogate, beyond U+10FFFF) and on offsets inside a character']
     rep.coverage.update({
-        'evaluations': len(cases) + len(pres),
-        'distinct_nontrivial': nmark,
+        'evaluations': len(cases) + len(cases_u) + len(pres) + ist['cases'] + 4 * lst['configurations'],
+        'distinct_nontrivial': nmark + ist['marker_lines_judged'] + lst['marker_lines_judged'],
         'rule': '%d generated rule trees x messages (capture groups, multi-line bodies, folded and encoded headers, date conditions) evaluated '
                 'with the dry-run flag by the real parser/evaluator/matches_inspect: the printed text is compared byte for byte with the model, '
                 'every "-> destination" line with the action entry, every explanation with the value, offsets and line the implementation '
                 'itself recorded (quoted line is a line of the value, ^ under the first and $ under the last matched character); %d '
                 'configurations run with -d and then for real on the real binary (listed messages = messages acted on, same destinations, '
-                'announced rewrites/discards/execs happen, unlisted untouched); non-trivial = marker lines judged' % (n, len(pres)),
+                'announced rewrites/discards/execs happen, unlisted untouched); locales: %d of the generated cases carry multibyte text '
+                '(wide, zero-width, 2-4 byte characters, stray 8-bit bytes, encoded words) and are evaluated a second time under '
+                'LC_ALL=C.utf8; %d generated (value, sub-match offsets) cases through the real expr_inspect under LC_ALL=C and C.utf8, text '
+                'compared with the model (strnwidth over the platform mbtowc/wcwidth, same locale) and every marker line judged by an '
+                'independent column oracle (own table of character widths); %d single-rule configurations (header and body patterns '
+                'sensitive to multibyte handling) x %d messages on the real binary with -d and for real under both locales (listed = moved = '
+                'what regexec under that locale says on the decoded value; marker lines judged by the column oracle); non-trivial = marker '
+                'lines judged' % (n, len(pres), len(cases_u), ist['cases'], lst['configurations'], lst['messages_each']),
         'samples': [dict(c.readable(), dry_run_output=(ec.impl_dry_text(c) or b'').decode('latin-1')[:400]) for c in cases if c.impl and c.impl.startswith('MATCH')][:2],
         'marker_lines_checked': nmark,
+        'multibyte_cases_under_C_utf8': len(cases_u),
+        'expr_inspect_stage': ist,
+        'locale_process_stage': lst,
         'correspondence_mismatches': len(corr_bad),
     })
 
